@@ -320,7 +320,16 @@ func (vc *VC) specObj(env *Env, obj types.Object) (Term, types.Type) {
 			env.fail("%s is not a global", o.Name())
 		}
 		addr := vc.val(vc.top, g)
-		return vc.load(env.st, addr, o.Type()), o.Type()
+		v := vc.load(env.st, addr, o.Type())
+		if vc.eng.initNonNil(g) {
+			switch v.Sort {
+			case SIface:
+				vc.q.Assert(Not(Eq(ITyp(v), IntLit(0))))
+			case SPtr:
+				vc.q.Assert(Not(Eq(v, NilP)))
+			}
+		}
+		return v, o.Type()
 	case *types.TypeName:
 		env.fail("type %s used as value", o.Name())
 	}
